@@ -7,6 +7,7 @@ import (
 	"image/color"
 	"image/jpeg"
 	"image/png"
+	"sort"
 
 	"github.com/tsawler/tabula/core"
 	"github.com/tsawler/tabula/pages"
@@ -80,6 +81,10 @@ func (r *Reader) ExtractPageImages(page *pages.Page) ([]PageImage, error) {
 
 		images = append(images, *img)
 	}
+
+	// The XObject dictionary is a map: give the result a stable order so that
+	// repeated extraction (and the OCR text assembled from it) is reproducible
+	sort.Slice(images, func(i, j int) bool { return images[i].Name < images[j].Name })
 
 	return images, nil
 }
